@@ -571,8 +571,9 @@ def pairing(g, opens, closes, start=None):
     """typestate DFS: every open is closed before exit / re-open; no close without open.
     Correlates repeated tests of one stable condition.  -> list of problems (strings)"""
     x = g.x
-    opens = set(opens)
-    closes = set(closes)
+    # threading clones of a site are the same program point
+    opens = set(x.expand_sites(opens))
+    closes = set(x.expand_sites(closes))
     problems = []
     seen = set()
     start = g.entry if start is None else start
@@ -586,7 +587,7 @@ def pairing(g, opens, closes, start=None):
             ck = stable_cond(g, sid)
             if ck is not None:
                 conds.setdefault(ck, set()).add(x.site(sid))
-    tracked = {sid: ck for sid in x.switches() for ck in [stable_cond(g, sid)] if ck is not None and len(conds.get(ck, ())) > 1}
+    tracked = {x.site(sid): ck for sid in x.switches() for ck in [stable_cond(g, sid)] if ck is not None and len(conds.get(ck, ())) > 1}
     steps = 0
     while stack:
         nid, st, known, trail = stack.pop()
@@ -617,7 +618,7 @@ def pairing(g, opens, closes, start=None):
             continue
         succs = n.succs
         if n.kind == 'block' and n.term['k'] == 'switch' and len(succs) > 1:
-            ck = tracked.get(nid)
+            ck = tracked.get(x.site(nid))
             if ck is not None:
                 kd = dict(known)
                 for eid in succs:
